@@ -59,8 +59,8 @@ func strideRuleN(p *core.Program, r *core.Report, rule string, targets []strideT
 	all := strideInfo(p)
 	explicit := map[*ssa.Function]bool{}
 	for _, t := range targets {
-		if t.name != "*" && !strings.HasPrefix(t.name, "file:") {
-			if f := p.SSAFunc(t.rel, t.name); f != nil {
+		if t.name != "*" && !strings.HasPrefix(t.name, "file:") && !strings.HasPrefix(t.name, "recv:") {
+			if f := p.SSAFunc(t.rel, strings.TrimPrefix(t.name, "?")); f != nil {
 				explicit[f] = true
 			}
 		}
@@ -90,6 +90,51 @@ func strideRuleN(p *core.Program, r *core.Report, rule string, targets []strideT
 					fn   *ssa.Function
 					kind string
 				}{fn, t.kind})
+			}
+			continue
+		}
+		if strings.HasPrefix(t.name, "recv:") {
+			// every method of the named receiver type that indexes a flat array (methods may be merged, split or
+			// inlined into each other without losing coverage); explicit entries override the kind
+			tn := strings.TrimPrefix(t.name, "recv:")
+			path := mod
+			if t.rel != "" {
+				path += "/" + t.rel
+			}
+			var l []*ssa.Function
+			for fn, si := range all {
+				if fn.Parent() != nil || core.FnPkgPath(fn) != path || len(si.Sites) == 0 || explicit[fn] || fn.Signature.Recv() == nil {
+					continue
+				}
+				if strings.Contains(fn.Signature.Recv().Type().String(), "."+tn) {
+					l = append(l, fn)
+				}
+			}
+			sort.Slice(l, func(i, j int) bool { return l[i].String() < l[j].String() })
+			if len(l) == 0 {
+				r.Lost(rule, relName(t.rel)+"."+tn, "no method of the type indexes a flat array any more")
+			}
+			for _, fn := range l {
+				fns = append(fns, struct {
+					fn   *ssa.Function
+					kind string
+				}{fn, t.kind})
+				for _, a := range fn.AnonFuncs {
+					fns = append(fns, struct {
+						fn   *ssa.Function
+						kind string
+					}{a, t.kind})
+				}
+			}
+			continue
+		}
+		if strings.HasPrefix(t.name, "?") {
+			// an optional refinement: applies if the function still exists
+			if f := p.SSAFunc(t.rel, strings.TrimPrefix(t.name, "?")); f != nil && f.Blocks != nil {
+				fns = append(fns, struct {
+					fn   *ssa.Function
+					kind string
+				}{f, t.kind})
 			}
 			continue
 		}
